@@ -153,7 +153,9 @@ def obligations(tier):
            dict(nframes=2, buffers=0, sweep=False, pad=150), dict(nframes=2, buffers=1, sweep=False, pad=150)]   # frames longer than miss_send_len
   # A announces itself, B and C talk to A (two flows installed back to back), A moves, silence, B talks to A again
   cases.append(dict(nframes=5, buffers=2, sweep=True, script=['A*', 'BA', 'CA', 'A*', 'BA']))
-  if thorough: cases += [dict(nframes=5, buffers=0, sweep=True, script=['A*', 'BA', 'AB', 'B*', 'AB']), dict(nframes=3, buffers=2, sweep=False), dict(nframes=3, buffers=0, sweep=False), dict(nframes=3, buffers=2, sweep=True)]
+  # B talks to A (flow cached), B moves to another (symbolic) port and talks to A again, then C talks to B: B's move must have been learned
+  cases.append(dict(nframes=4, buffers=2, sweep=False, script=['A*', 'BA', 'BA', 'CB']))
+  if thorough: cases += [dict(nframes=4, buffers=0, sweep=True, script=['A*', 'BA', 'BA', 'AB']), dict(nframes=5, buffers=0, sweep=True, script=['A*', 'BA', 'AB', 'B*', 'AB']), dict(nframes=3, buffers=2, sweep=False), dict(nframes=3, buffers=0, sweep=False), dict(nframes=3, buffers=2, sweep=True)]
   BOUNDS[tier] = dict(switches=1, ports=NPORTS, frames=[c['nframes'] for c in cases], macs="48-bit symbolic source/destination per frame (all aliasing patterns)",
                       ingress="symbolic port", gaps="0..45 s symbolic with an expiry sweep before each frame (sweep cases)", buffering=sorted({c['buffers'] for c in cases}), frame_lengths=[18, 168], miss_send_len=128)
   return [Obligation('O1_frames', h_frames, cases, witnesses=('done', 'flood', 'unicast-known', 'filtered', 'cached-flow'), max_decisions=40000,
